@@ -340,8 +340,12 @@ def run_batch(prog):
                     selobj = []
                 selobj[:] = chosen
                 chosen = selobj
-            r = batch_run(BatchModel, params, collectors=chosen,
-                          processes=procs, repetitions=reps, **kw)
+            # arguments at their documented defaults are left out of every other call (one process, one repetition)
+            if procs != 1 or (reps + len(events) + len(grid)) % 2:
+                kw["processes"] = procs
+            if reps != 1 or (len(events) + len(grid)) % 2:
+                kw["repetitions"] = reps
+            r = batch_run(BatchModel, params, collectors=chosen, **kw)
             res = [_norm_run(x) for x in r]
             shapes = ["dict" if isinstance(x, dict) else ("list" if isinstance(x, list) else type(x).__name__) for x in r]
         except Exception as e:  # noqa: BLE001
@@ -492,7 +496,7 @@ def run_search(prog):
         TABLE = {_key(k.get("x", 0), k.get("y", 0)): list(table[i]) for i, k in enumerate(keys)}
         COUNT = {}
         SCALE = scale
-        SLOW_FIRST = procs > 1
+        SLOW_FIRST = procs > 1 or (reps + len(table)) % 4 == 0     # (also for a quarter of the serial searches: those that omit `processes`)
         sc = SCALES[scale]
         n = reps
         K = 16 * n * (n - 1) if n > 1 else 16
@@ -530,7 +534,14 @@ def run_search(prog):
                     # values given as one-shot iterables (a generator, map, iter): the grid is built from them once
                     wrap = [lambda v: (x for x in v), lambda v: map(lambda x: x, v), iter][(reps + procs) % 3]
                     params = {nm: wrap(list(v)) for nm, v in grid}
-            b, results = grid_search(SearchModel, params, score_func, processes=procs, repetitions=reps, mode=MODES[mode])
+            skw = {}
+            if procs != 1 or (reps + len(table)) % 2:
+                skw["processes"] = procs          # documented defaults are left out of every other call
+            if reps != 1 or len(table) % 2:
+                skw["repetitions"] = reps
+            if mode != "MIN" or len(table) % 2:
+                skw["mode"] = MODES[mode]
+            b, results = grid_search(SearchModel, params, score_func, **skw)
             for r in results:
                 params = [[str(k), int(v)] for k, v in r.items() if k not in ("records", "score")]
                 recs = [_exact_int((Fraction(x) - Fraction(OFFSETS.get(scale, 0))) / Fraction(sc)) for x in r["records"]]
